@@ -20,13 +20,13 @@ SWEEP_EXHAUSTIVE_NOTE = ("bounded sweep over B base documents (B = 4 quick, 40 t
                          "64th byte (every 7th byte in the thorough tier) and content.xml cut at every tag boundary")
 FEATURES = ["colruns", "rowruns", "s-single", "s-noc", "paragraphs", "spans", "emptyp", "stored", "utf16", "latin1",
             "colstyle", "trailing-empty-run", "annotations", "embedded-object", "links", "header-rows", "row-groups",
-            "covered-cells", "no-value-type"]
+            "covered-cells", "no-value-type", "no-mimetype"]
 FAULT_KINDS = ["truncate", "xml-cut", "member-missing", "not-a-zip", "corrupt-member", "bad-repeat", "missing-sheet",
                "deep-nesting"]
 RULE_TEXT = (
     "seeded scenarios: 1-3 sheets of 0-6 rows x 0-8 cells over an alphabet with runs of equal cells, equal adjacent rows, "
     "multiple / leading / trailing blanks, tabs, line breaks, XML-special and non-ASCII characters, encoded by the ODF "
-    "peer with a random subset of its 19 optional encoding features, read by ods_rows(path, k) under a seeded chunk "
+    "peer with a random subset of its 20 optional encoding features, read by ods_rows(path, k) under a seeded chunk "
     "schedule; 35% carry exactly one fault; plus the bounded sweep in sweep_note. Non-trivial: the requested sheet has a "
     "non-empty cell (fault-free) / the fault fired (fault batch). Distinct: (features used in the encoding, sheet count "
     "and k, table shape, classes of special content, fault kind and position class, chunk regime)."
@@ -107,7 +107,8 @@ def generate(seed, tier):
                     "cell": rng.choice(["", "", "x"]), "count": rng.choice([1023, 1025, 2000, 16384])}
     return {"io": simfs.IoConfig.draw(swarm), "sheets": sheets, "features": features, "sheet": sheet, "fault": fault,
             "earlier_document_at_same_path": earlier, "wide_run": wide_run,
-            "source": swarm.choice(["path", "path", "stream"]), "stream_read_before": swarm.random() < 0.5}
+            "source": swarm.choice(["path", "path", "stream"]), "stream_read_before": swarm.random() < 0.5,
+            "via": swarm.choice(["direct", "direct", "reader"])}
 
 
 def expanded_sheets(scenario):
@@ -308,7 +309,19 @@ def execute(scenario):
             if scenario.get("stream_read_before"):
                 lib.call(lambda: list(rowio.ods_rows(source, 1)))
                 result.probe("same-stream-read-before")
-        status, value = lib.call(lambda: lib.collect_rows(rowio.ods_rows(source, sheet)))
+        sheet_rows = logical[sheet - 1] if sheet <= len(logical) else None
+        uniform = bool(sheet_rows) and len(sheet_rows[0]) >= 1 and all(len(row) == len(sheet_rows[0]) for row in sheet_rows)
+        if scenario.get("via") == "reader" and source == "data.ods" and (uniform or sheet_rows is None) and not (fault and fired):
+            # the same sheet through cutplace.rows under a CID of optional Text fields that names the sheet
+            from cutplace import validio
+
+            width = len(sheet_rows[0]) if sheet_rows else 1
+            cid = lib.load_cid([["d", "format", "ods"], ["d", "sheet", str(sheet)]] + [
+                ["f", "c%d" % index, "", "X", "", "Text", ""] for index in range(width)])
+            status, value = lib.call(lambda: lib.collect_rows(validio.rows(cid, "data.ods")))
+            result.probe("via:reader")
+        else:
+            status, value = lib.call(lambda: lib.collect_rows(rowio.ods_rows(source, sheet)))
         if source != "data.ods" and source.closed:
             raise core.Violation("caller-stream-closed-by-cutplace", [], "the stream passed in as data source is closed after the read")
     history.add("client", "ods_rows", {"sheet": sheet, "status": status,
